@@ -277,6 +277,7 @@ type Obligation struct {
 	Trivial  bool
 	Instance int
 	Inputs   map[string]string // model-relevant input names -> term (for replay)
+	Invert   bool              // vacuity guard: passes unless the assumptions are contradictory
 }
 
 func (st *State) pathString() string {
